@@ -1,6 +1,6 @@
 (* Property C11 — the wallet database gives atomic, isolated, ordered key/value transactions.
    Only statements here; each is closed by [exact] of a lemma proved in KV/Proofs.v (Proofs2.v: bucket index invariant
-   and exact listing, Proofs3.v: nested-map refinement, Proofs4.v: no orphans, Proofs5.v: iterators of write
+   and exact listing, Proofs3.v: nested-map refinement, Proofs4.v: no orphans, Proofs5.v + Proofs6.v: iterators of write
    transactions) and followed by Print Assumptions.
    Model: KV/Model.v — masswallet/db/db.go (BytesPrefix, Update) and masswallet/db/ldb/leveldb.go (batch, transaction,
    levelBucket, batchIterator, levelIterator), one Gallina function per Go method.  goleveldb is environment:
@@ -13,7 +13,7 @@
 From Coq Require Import List ZArith Sorted.
 Import ListNotations.
 Open Scope Z_scope.
-Require Import MW.KV.Model MW.KV.Proofs MW.KV.Proofs2 MW.KV.Proofs3 MW.KV.Proofs4 MW.KV.Proofs5.
+Require Import MW.KV.Model MW.KV.Proofs MW.KV.Proofs2 MW.KV.Proofs3 MW.KV.Proofs4 MW.KV.Proofs5 MW.KV.Proofs6.
 
 (* ---- atomicity *)
 (* Commit applies exactly the recorded log, Rollback nothing; db.Update with a failing function leaves the store as it
@@ -417,11 +417,49 @@ Theorem C11_seek : forall s h start limit key, keys_sorted s -> keys_bytes s -> 
 Proof. exact seek_exact. Qed.
 Print Assumptions C11_seek.
 
-(* ---- iterators created INSIDE a write transaction (levelIterator = a goleveldb snapshot iterator over the committed
-   range, followed by a batchIterator over the transaction's pending net puts; outside the property text, which speaks
-   of committed entries).  [new_iterator] is the repaired code: batchIterator.Seek / Reset start at
-   max(seek key, range start) ([bi_from], field [bi_lower]); the iterator field [it_clamp] = false gives the code as
-   first found ([new_iterator_gen false], [step_seek_unrepaired]). *)
+(* ---- iterators created INSIDE a write transaction (outside the property text, which speaks of committed entries).
+   Three versions of the code, selected by two constant fields of the model's iterator:
+     [new_iterator] = [new_iterator_gen true true], [step]: the code as it is now — levelIterator MERGES the goleveldb
+       snapshot iterator over the committed range with the keys the batch had written when the iterator was created
+       (batch.netChanges: net puts and net deletes), and shows the transaction's view: C11_write_iter_is_view below;
+     [new_iterator_gen true false], [step_iter_unmerged] ([it_merge] = false): the code before that repair — the
+       snapshot iterator as it is, followed by a batchIterator over the pending net puts (C11_seek_write_tx_unmerged,
+       C11_write_iter_not_view_refuted), with batchIterator.Seek / Reset starting at max(seek key, range start);
+     [new_iterator_gen false false], [step_seek_unrepaired] ([it_clamp] = false too): the code as first found. *)
+(* THE CODE AS IT IS NOW.  An iterator of a write transaction shows the transaction's own view as of the iterator's creation
+   (store s committed, batch b pending; [commit s b] is the store the transaction would commit):
+   (1) Seek(key) followed by Next() until it answers false yields exactly the entries of the view in the bucket with
+       start <= key' < limit and key' >= key — a committed key the batch deleted is not there, a committed key the batch
+       overwrote is there once with the batch's value, keys only in the batch are there — strictly ascending, hence each
+       once; Seek answers true iff there is one;
+   (2) a fresh iterator advanced by Next() alone yields exactly the entries of the view with start <= key' < limit,
+       strictly ascending.
+   For every store, well-formed batch, bucket, range, key and every number of Next() calls (fuel) above
+   |store| + |batch.puts| + |batch.deletes|; no premise on which keys the batch has touched (C11_seek_write_tx_view_unmerged
+   needed "none of the committed keys of the range").  Proofs6: the index machine [mi_merge] computes the list merge
+   [mrg] of what is left on both sides (merge_spec), and [mrg] of two ascending runs holds for every key the batch's word
+   if the batch wrote the key and the committed entry otherwise (mrg_get), which is [commit] (commit_get). *)
+Theorem C11_write_iter_is_view : forall s b h start limit key fuel,
+  keys_sorted s -> keys_bytes s -> batch_wf b -> keys_bytes (b_puts b) -> bytes_ok (h_path h) ->
+  (length s + length (b_puts b) + length (b_dels b) < fuel)%nat ->
+  (let r := iter_seek (new_iterator s (Some b) h start limit) key in
+   let out := iter_current (snd r) ++ drain fuel (snd r) in
+   (forall k v, In (k, v) out <->
+      s_get (inner_key (h_path h) k) (commit s b) = Some v /\ user_range start limit k = true /\ ble key k = true) /\
+   StronglySorted (fun a b => blt (fst a) (fst b) = true) out /\
+   (fst r = true <-> out <> [])) /\
+  (let out := drain (S fuel) (new_iterator s (Some b) h start limit) in
+   (forall k v, In (k, v) out <->
+      s_get (inner_key (h_path h) k) (commit s b) = Some v /\ user_range start limit k = true) /\
+   StronglySorted (fun a b => blt (fst a) (fst b) = true) out).
+Proof.
+  exact (fun s b h start limit key fuel Hs Hb Hwf Hbb Hp Hf =>
+           conj (write_iter_is_view s b h start limit key fuel Hs Hb Hwf Hbb Hp Hf)
+                (write_iter_is_view_fresh s b h start limit fuel Hs Hb Hwf Hbb Hp Hf)).
+Qed.
+Print Assumptions C11_write_iter_is_view.
+
+(* THE CODE BEFORE THE MERGING REPAIR (kept as the description of what was found; restated for the switch-off model): *)
 (* Seek(key) followed by Next() until false, on an iterator over Range{start, limit} created in a write transaction
    with committed store s and pending batch b, yields two runs one after the other — the Go code does not merge them
    by key:
@@ -429,9 +467,9 @@ Print Assumptions C11_seek.
      B = the pending net puts of the transaction (keys whose last operation in the batch is a put, with that value)
          with start <= key' < limit and key' >= key, ascending.
    Seek answers true iff there is any.  In particular nothing outside the range is ever yielded, whatever key is. *)
-Theorem C11_seek_write_tx : forall s b h start limit key,
+Theorem C11_seek_write_tx_unmerged : forall s b h start limit key,
   keys_sorted s -> keys_bytes s -> batch_wf b -> keys_bytes (b_puts b) -> bytes_ok (h_path h) ->
-  let r := iter_seek (new_iterator s (Some b) h start limit) key in
+  let r := iter_seek (new_iterator_gen true false s (Some b) h start limit) key in
   let out := iter_current (snd r) ++ drain (S (length s + length (b_puts b))) (snd r) in
   exists A B, out = A ++ B /\
     (forall k v, In (k, v) A <->
@@ -442,16 +480,17 @@ Theorem C11_seek_write_tx : forall s b h start limit key,
     StronglySorted (fun a b => blt (fst a) (fst b) = true) B /\
     (fst r = true <-> out <> []).
 Proof. exact seek_write_tx. Qed.
-Print Assumptions C11_seek_write_tx.
+Print Assumptions C11_seek_write_tx_unmerged.
 
 (* ... against the transaction's own view [commit s b] (committed entries overlaid with the batch's puts and deletes):
    every entry the transaction sees in the range at or after key IS yielded; everything yielded lies in the range at
    or after key and is a committed entry or an entry of the view; and if the batch has touched none of the committed
    keys of the range at or after key, the yield is exactly what the transaction sees, every key once.
-   Without that premise "exactly", "ascending" and "each once" are all false: C11_write_iter_not_view_refuted. *)
-Theorem C11_seek_write_tx_view : forall s b h start limit key,
+   Without that premise "exactly", "ascending" and "each once" are all false: C11_write_iter_not_view_refuted.
+   (The merging iterator needs no such premise: C11_write_iter_is_view.) *)
+Theorem C11_seek_write_tx_view_unmerged : forall s b h start limit key,
   keys_sorted s -> keys_bytes s -> batch_wf b -> keys_bytes (b_puts b) -> bytes_ok (h_path h) ->
-  let r := iter_seek (new_iterator s (Some b) h start limit) key in
+  let r := iter_seek (new_iterator_gen true false s (Some b) h start limit) key in
   let out := iter_current (snd r) ++ drain (S (length s + length (b_puts b))) (snd r) in
   let sees k v := s_get (inner_key (h_path h) k) (commit s b) = Some v /\ user_range start limit k = true /\ ble key k = true in
   (forall k v, sees k v -> In (k, v) out) /\
@@ -461,19 +500,24 @@ Theorem C11_seek_write_tx_view : forall s b h start limit key,
                 batch_view b (inner_key (h_path h) k) = None) ->
    (forall k v, In (k, v) out <-> sees k v) /\ NoDup (map fst out)).
 Proof. exact seek_write_tx_view. Qed.
-Print Assumptions C11_seek_write_tx_view.
+Print Assumptions C11_seek_write_tx_view_unmerged.
 
 (* the typing premises on the batch and the store follow from the index invariant (C11_index_invariant), and the
-   switch is a constant of the iterator: Seek and Next never change it, and [step_seek_unrepaired] (every iterator's
-   switch cleared after each step) is creating every iterator with [new_iterator_gen false] *)
+   switches are constants of the iterator: Seek and Next never change them, and [step_iter_unmerged] /
+   [step_seek_unrepaired] (every iterator's switch(es) cleared after each step) is creating every iterator with
+   [new_iterator_gen true false] / [new_iterator_gen false false] *)
 Theorem C11_seek_write_tx_premises :
   (forall b, batch_idx_ok b -> keys_bytes (b_puts b)) /\ (forall s, store_ok s -> keys_bytes s) /\
   (forall it k, it_clamp (snd (iter_seek it k)) = it_clamp it) /\ (forall it, it_clamp (snd (iter_next it)) = it_clamp it) /\
-  (forall s ob h a l, it_unclamp (new_iterator s ob h a l) = new_iterator_gen false s ob h a l) /\
-  (forall it, it_clamp it = false -> it_unclamp it = it).
+  (forall it k, it_merge (snd (iter_seek it k)) = it_merge it) /\ (forall it, it_merge (snd (iter_next it)) = it_merge it) /\
+  (forall s ob h a l, it_unclamp (new_iterator s ob h a l) = new_iterator_gen false false s ob h a l) /\
+  (forall it, it_clamp it = false -> it_merge it = false -> it_unclamp it = it) /\
+  (forall s ob h a l, it_unmerge (new_iterator s ob h a l) = new_iterator_gen true false s ob h a l) /\
+  (forall it, it_merge it = false -> it_unmerge it = it).
 Proof.
   exact (conj batch_idx_ok_keys_bytes (conj store_ok_keys_bytes (conj iter_seek_clamp (conj iter_next_clamp
-         (conj unclamp_new_iterator unclamp_id))))).
+         (conj iter_seek_merge (conj iter_next_merge
+         (conj unclamp_new_iterator (conj unclamp_id (conj unmerge_new_iterator unmerge_id))))))))).
 Qed.
 Print Assumptions C11_seek_write_tx_premises.
 
@@ -495,20 +539,26 @@ Theorem C11_seek_below_range_unfixed_refuted :
 Proof. exact seek_below_range_unfixed_refuted. Qed.
 Print Assumptions C11_seek_below_range_unfixed_refuted.
 
-(* what a write-transaction iterator is NOT, also after the repair (reproduces on the Go code).  Committed in bucket a:
-   k = v, m = w.  A write transaction deletes k, overwrites m = x, puts b = y (Proofs5.stale_ops) and iterates the
-   bucket: Get(k) = nil, Get(m) = x, GetByPrefix("") = {m = x, b = y}, but Seek("") and four Next() answer
-   k = v (deleted), m = w (overwritten), b = y (a smaller key after a larger), m = x (m a second time), end. *)
+(* what the write-transaction iterator of the code BEFORE THE MERGING REPAIR was not (reproduced on the Go code, known
+   finding write-tx-iterator-not-view until the repair).  Committed in bucket a: k = v, m = w.  A write transaction deletes
+   k, overwrites m = x, puts b = y (Proofs5.stale_ops) and iterates the bucket: Get(k) = nil, Get(m) = x,
+   GetByPrefix("") = {m = x, b = y}, but Seek("") and four Next() answered
+   k = v (deleted), m = w (overwritten), b = y (a smaller key after a larger), m = x (m a second time), end.
+   The merging iterator on the same history: b = y, m = x, end (also when drained by Next() without a Seek). *)
 Theorem C11_write_iter_not_view_refuted :
   Forall op_bytes stale_ops /\
-  snd (step (run stale_ops) (OGet 0 [107])) = RNil /\
-  snd (step (run stale_ops) (OGet 0 [109])) = RVal [120] /\
-  snd (step (run stale_ops) (OPfx 0 [])) = REntries [([109], [120]); ([98], [121])] /\
-  snd (step (run stale_ops) (OSeek 0 [])) = RIter true (Some [107]) [118] /\
-  snd (step (run (stale_ops ++ [OSeek 0 []])) (ONext 0)) = RIter true (Some [109]) [119] /\
-  snd (step (run (stale_ops ++ [OSeek 0 []; ONext 0])) (ONext 0)) = RIter true (Some [98]) [121] /\
-  snd (step (run (stale_ops ++ [OSeek 0 []; ONext 0; ONext 0])) (ONext 0)) = RIter true (Some [109]) [120] /\
-  snd (step (run (stale_ops ++ [OSeek 0 []; ONext 0; ONext 0; ONext 0])) (ONext 0)) = RIter false None [].
+  snd (step_iter_unmerged (run_unmerged stale_ops) (OGet 0 [107])) = RNil /\
+  snd (step_iter_unmerged (run_unmerged stale_ops) (OGet 0 [109])) = RVal [120] /\
+  snd (step_iter_unmerged (run_unmerged stale_ops) (OPfx 0 [])) = REntries [([109], [120]); ([98], [121])] /\
+  snd (step_iter_unmerged (run_unmerged stale_ops) (OSeek 0 [])) = RIter true (Some [107]) [118] /\
+  snd (step_iter_unmerged (run_unmerged (stale_ops ++ [OSeek 0 []])) (ONext 0)) = RIter true (Some [109]) [119] /\
+  snd (step_iter_unmerged (run_unmerged (stale_ops ++ [OSeek 0 []; ONext 0])) (ONext 0)) = RIter true (Some [98]) [121] /\
+  snd (step_iter_unmerged (run_unmerged (stale_ops ++ [OSeek 0 []; ONext 0; ONext 0])) (ONext 0)) = RIter true (Some [109]) [120] /\
+  snd (step_iter_unmerged (run_unmerged (stale_ops ++ [OSeek 0 []; ONext 0; ONext 0; ONext 0])) (ONext 0)) = RIter false None [] /\
+  snd (step (run stale_ops) (OSeek 0 [])) = RIter true (Some [98]) [121] /\
+  snd (step (run (stale_ops ++ [OSeek 0 []])) (ONext 0)) = RIter true (Some [109]) [120] /\
+  snd (step (run (stale_ops ++ [OSeek 0 []; ONext 0])) (ONext 0)) = RIter false None [] /\
+  snd (step (run (stale_ops ++ [OIter 1 0 0 [] []])) (ONext 1)) = RIter true (Some [98]) [121].
 Proof. exact write_iter_not_view_refuted. Qed.
 Print Assumptions C11_write_iter_not_view_refuted.
 
@@ -601,14 +651,17 @@ Proof.
   - vm_compute. eexists. split; [reflexivity|discriminate].
 Qed.
 
-(* ---- non-vacuity of C11_seek_write_tx: the state of Proofs5.stale_ops (non-empty committed store, open write
-   transaction with puts and a delete) meets its hypotheses, and there the theorem's two runs are
-   A = [k = v; m = w] and B = [b = y; m = x] *)
+(* ---- non-vacuity of C11_seek_write_tx_unmerged and C11_write_iter_is_view: the state of Proofs5.stale_ops (non-empty
+   committed store, open write transaction with puts and a delete) meets their hypotheses; there the two runs of the
+   code before the merging repair are A = [k = v; m = w] and B = [b = y; m = x], and the merging iterator yields the
+   transaction's view [b = y; m = x] *)
 Example C11_ex_seek_write_tx :
   exists b, st_wtx (run stale_ops) = Some b /\ b_log b <> [] /\ st_store (run stale_ops) <> [] /\
     keys_sorted (st_store (run stale_ops)) /\ keys_bytes (st_store (run stale_ops)) /\ batch_wf b /\ keys_bytes (b_puts b) /\
-    let r := iter_seek (new_iterator (st_store (run stale_ops)) (Some b) (mkHandle [49; 95; 97] 1) [] []) [] in
-    iter_current (snd r) ++ drain 10 (snd r) = [([107], [118]); ([109], [119])] ++ [([98], [121]); ([109], [120])].
+    (let r := iter_seek (new_iterator_gen true false (st_store (run stale_ops)) (Some b) (mkHandle [49; 95; 97] 1) [] []) [] in
+     iter_current (snd r) ++ drain 10 (snd r) = [([107], [118]); ([109], [119])] ++ [([98], [121]); ([109], [120])]) /\
+    (let r := iter_seek (new_iterator (st_store (run stale_ops)) (Some b) (mkHandle [49; 95; 97] 1) [] []) [] in
+     iter_current (snd r) ++ drain 10 (snd r) = [([98], [121]); ([109], [120])]).
 Proof.
   destruct write_iter_not_view_refuted as [Hbytes _].
   pose proof (run_idx_inv true stale_ops Hbytes) as [[Hsorted [Hwf _]] [Hs [Hidx _]]].
@@ -617,5 +670,5 @@ Proof.
   exists b. split; [reflexivity|]. split; [intros Hl; vm_compute in E; inversion E; subst b; vm_compute in Hl; discriminate|].
   split; [vm_compute; discriminate|]. split; [exact Hsorted|]. split; [apply store_ok_keys_bytes; exact Hs|].
   split; [exact Hwf|]. split; [apply batch_idx_ok_keys_bytes; apply Hidx|].
-  vm_compute in E. inversion E; subst b. vm_compute. reflexivity.
+  vm_compute in E. inversion E; subst b. vm_compute. split; reflexivity.
 Qed.
